@@ -140,6 +140,9 @@ class C18(Prop):
             "noise_calls": gen.noise_calls(),
             # connect() options that must not matter here
             "copts_noise": gen.copts_noise(("poll", "ping_timeout", "close_timeout",)),
+            # the k-th write after the upgrade request (an automatic Pong) fails without breaking the transport (a send
+            # timeout, a transient error): whatever has arrived is still there to be read
+            "send_fault": gen.weighted([(5, st.none()), (1, st.tuples(st.integers(1, 6), st.sampled_from(["timeout", "oserror"])).map(list))]),
         })
 
     def enumerations(self, tier):
@@ -183,7 +186,17 @@ class C18(Prop):
                             yield {"tls": tls, "eager": False, "record": 16384, "with_reply": n == 3, "chunk": None,
                                    "tail_violation": {"class": c, "a": a, "b": 1, "wide": False},
                                    "bursts": [[4, {"kind": "many_small", "n": n, "rep": 3, "ping_every": 2}]]}
+        def failed_reply_writes():
+            for tls in (False, True):
+                for k in (1, 2, 5):
+                    for how in ("timeout", "oserror"):
+                        for n, every in ((40, 3), (300, 7), (4, 1)):
+                            yield {"tls": tls, "eager": False, "record": 16384, "with_reply": False, "chunk": None,
+                                   "send_fault": [k, how],
+                                   "bursts": [[4, {"kind": "many_small", "n": n, "rep": 60, "ping_every": every}],
+                                              [8, {"kind": "many_small", "n": 6, "rep": 1, "ping_every": 2}]]}
         return [Enumeration("sizes_x_records_grid", grid, exhaustive=True),
+                Enumeration("an_automatic_reply_cannot_be_written", failed_reply_writes, exhaustive=True),
                 Enumeration("bursts_followed_by_a_violating_frame", with_tail, exhaustive=True)]
 
     def run_case(self, case):
@@ -228,7 +241,9 @@ class C18(Prop):
         script.append(["eof", 1.0])
         scn = build.scenario(script, url="wss://example.test/" if tls else build.URL,
                              connect_opts={"poll": 60.0, "ping_rate": 0},
-                             attempt_extra={"record": case["record"], "tls_eager": bool(tls and case.get("eager"))},
+                             attempt_extra=dict({"record": case["record"], "tls_eager": bool(tls and case.get("eager"))},
+                                                **({"faults": {"send": {str(case["send_fault"][0]): case["send_fault"][1]}}}
+                                                   if case.get("send_fault") else {})),
                              horizon=100000.0)
         tr = simnet.run_scenario(scn)
         labels = {("tls_eager" if case.get("eager") else "tls") if tls else "plain"}
@@ -260,9 +275,12 @@ class C18(Prop):
         pings = [(at, ev["data"]) for at, ev in expected if ev["name"] == "ping"]
         pongs = []
         for e in tr.sim.log:
-            if e[0] == "send" and e[4] == "lib" and not e[2].startswith(b"GET "):
+            # (a write that the harness made fail still counts: the reply was attempted when it was due)
+            if e[0] in ("send", "send_fail") and e[4] == "lib" and not e[2].startswith(b"GET "):
                 frames, _ = wire.decode_frames(e[2])
                 pongs += [(e[3], f.payload) for f in frames if f.opcode == wire.PONG]
+                if e[0] == "send_fail":
+                    labels.add("automatic_reply_write_failed")
         if len(pongs) != len(pings):
             return failed("pong_count", "%d Pongs for %d Pings" % (len(pongs), len(pings)), labels, nontrivial)
         for (pt, pp), (at, data) in zip(pongs, pings):
